@@ -1384,3 +1384,9 @@ class _Finalize:
         }
 
 NATIVE.add(DTB + ".finalize", _gen_finalize, _build_finalize)
+
+
+# effect obligations (AST, complete for what they state): no memoising decorator, no module-level state - see specs/common.py
+from .common import no_hidden_state_check as _no_hidden_state_check  # noqa: E402
+EXTRA_CHECKS = list(globals().get("EXTRA_CHECKS", [])) + [_no_hidden_state_check(
+    ["pydsdl._serializable._name", "pydsdl._port_id_ranges", "pydsdl._serializable._serializable", "pydsdl._serializable._void"], "the static-rule checks")]
